@@ -33,6 +33,22 @@ def ellipsoids(gc, rnd, n):
     return out
 
 
+_KEEP = []
+_N = [0]
+
+
+def fresh(E):
+    """two calls out of three get a NEW Ellipsoid object with the same defining numbers (user code builds them on the fly; the last two
+    stay alive, older ones are freed and their ids recycled): a cache keyed on less than (a, 1/f) shows up as a wrong closed form"""
+    _N[0] += 1
+    if _N[0] % 3 == 0:
+        return E
+    e = type(E)(E.semimaj, E.inversef)
+    _KEEP.append(e)
+    del _KEEP[:-2]
+    return e
+
+
 def fwd_event(cv, an, name, E, slat, slon, h, turn):
     lat = math.degrees(math.atan2(slat[0], slat[1]))
     lon = math.degrees(math.atan2(slon[0], slon[1])) + 360.0 * turn
@@ -77,7 +93,7 @@ def fwdany_event(cv, name, E, lat, lon, h, out=None, form="float", an=None):
     if exact is not None:
         ev["latdeg"], ev["londeg"] = fix.enc(exact[0]), fix.enc(exact[1])
     try:
-        x, y, z = cv.llh2xyz(alat, alon, float(h), E) if out is None else out
+        x, y, z = cv.llh2xyz(alat, alon, float(h), fresh(E)) if out is None else out
         ev["out"] = [fix.enc(x), fix.enc(y), fix.enc(z)]
     except Exception as ex:
         ev["exc"] = "%s: %s" % (type(ex).__name__, str(ex)[:100])
@@ -88,9 +104,9 @@ def inv_event(cv, name, E, p):
     ev = {"k": "Inv", "ell": name, "in": [fix.enc(v) for v in p], "p": list(p), "lat": [0], "lon": [0], "back": [[0], [0], [0]],
           "exc": ""}
     try:
-        lat, lon, h = cv.xyz2llh(p[0], p[1], p[2], E)
+        lat, lon, h = cv.xyz2llh(p[0], p[1], p[2], fresh(E))
         ev["lat"], ev["lon"] = fix.enc(lat), fix.enc(lon)
-        ev["back"] = [fix.enc(v) for v in cv.llh2xyz(lat, lon, h, E)]
+        ev["back"] = [fix.enc(v) for v in cv.llh2xyz(lat, lon, h, fresh(E))]
     except Exception as ex:
         ev["exc"] = "%s: %s" % (type(ex).__name__, str(ex)[:100])
     return ev
